@@ -114,13 +114,31 @@ def run(ctx):
     for c in S.mro():
         for m in c.methods.values():
             if S.resolve(m.name) is m and "log_w" in method_stores(m) and m.name != "__post_init__":
-                writers.append(m)
+                # a method that only resets log_w to None and delegates the computation (calls another method) is not a writer of weights
+                import ast as _ast
+                real = any(isinstance(n, _ast.Assign) and any(isinstance(t, _ast.Attribute) and t.attr == "log_w" for t in n.targets)
+                           and not (isinstance(n.value, _ast.Constant) and n.value.value is None) for n in _ast.walk(m.node))
+                if real:
+                    writers.append(m)
     ctx.floor("methods storing Samples.log_w", len(writers), 1)
+    def weighted(v):
+        """value on the path where weights are computed: a helper may also hold the `not all three densities given -> None` alternative"""
+        if v is None:
+            return None
+        alts = []
+        for l in T.phi_leaves(v):
+            if l != T.NONE and l not in alts:
+                alts.append(l)
+        return alts[0] if len(alts) == 1 else v
+
     for m in writers:
         ev, _ = fold(repo, m, S)
         ctx.count("functions_folded")
         construct = m.ident
         loc = loc_of(m)
+        for k_ in ("log_w", "log_evidence", "effective_sample_size", "weights", "evidence", "evidence_error", "log_evidence_error"):
+            if (SELF, k_) in ev.heap:
+                ev.heap[(SELF, k_)] = weighted(ev.heap[(SELF, k_)])
         log_w = ev.heap.get((SELF, "log_w"))
         if log_w is None:
             ctx.unknown("C02.w", construct, loc, "no store to self.log_w found after folding")
@@ -483,6 +501,7 @@ MUTANTS += [
     M("logsumexp ignores axis", _U, "return c + xp.log(xp.sum(xp.exp(x - c), axis=axis))", "return c + xp.log(xp.sum(xp.exp(x - c)))", "C02.lse"),
 ]
 NEUTRALS = [
+    M("weight initialisation moved into a helper", _S, "super().__post_init__()\n\n        if all(", "super().__post_init__()\n        self._init_weights()\n\n    def _init_weights(self):\n        if all(", within="Samples"),
     M("rejection uniforms drawn on the device for torch", _S, "log_u = asarray(\n            np.log(rng.uniform(size=len(self.x))), self.xp, device=self.device\n        )",
       "if self.device is not None:\n            log_u = self.xp.log(self.xp.rand(len(self.x), device=self.device))\n        else:\n            log_u = asarray(np.log(rng.uniform(size=len(self.x))), self.xp, device=self.device)"),
     M("evidence with the -log N inside the logsumexp", _S, "self.log_evidence = asarray(logsumexp(self.log_w), self.xp) - math.log(\n            len(self.x)\n        )", "self.log_evidence = asarray(logsumexp(self.log_w - math.log(len(self.x))), self.xp)"),
